@@ -172,10 +172,17 @@ def r3_both_ends_checked(ctx: Ctx) -> None:
 
 
 
+def r4_run_address_bookkeeping(ctx: Ctx) -> None:
+    """the branch is encoded from resolver.pc / resolver.reloc_address: set_position must keep both true (shared with C03.R3)"""
+    from .c03 import r3_position_nodes
+
+    r3_position_nodes(ctx)
+
+
 def rb_binding_agreement(ctx: Ctx) -> None:
     from ..ownership import binding_agreement
 
     binding_agreement(ctx)
 
 
-RULES = [r1_no_truncation, r2_bias_equals_length, r3_both_ends_checked, rb_binding_agreement]
+RULES = [r1_no_truncation, r2_bias_equals_length, r3_both_ends_checked, r4_run_address_bookkeeping, rb_binding_agreement]
